@@ -45,7 +45,7 @@ const (
 	nEv
 )
 
-var evName = []string{"leader:put(new key)", "leader:put(a)", "leader:delete(a)", "leader:delete-range(a..)", "leader:toggle-txn", "leader:put(100KiB)", "follower:poll", "follower:recover-from-snapshot", "leader:snapshot+compact(keep 0)", "leader:snapshot+compact(keep 1)", "follower:engine-restart", "leader:advanced-reader-warms-log-cache-at-tail"}
+var evName = []string{"leader:put(new key)", "leader:put(a)", "leader:delete(a)", "leader:delete-range(a..)", "leader:toggle-txn", "leader:put(300KiB, larger than one follower proposal)", "follower:poll", "follower:recover-from-snapshot", "leader:snapshot+compact(keep 0)", "leader:snapshot+compact(keep 1)", "follower:engine-restart", "leader:advanced-reader-warms-log-cache-at-tail"}
 
 type Case struct {
 	Path     []int    `json:"path"`
@@ -316,7 +316,7 @@ func (p *pair) run(c Case) (vs []viol, outcome string, inconclusive string) {
 			newKeys++
 			k := fmt.Sprintf("big%d", newKeys)
 			inc = write(func(ctx context.Context) (uint64, error) {
-				r, err := p.leader.Put(ctx, &regattapb.PutRequest{Table: []byte(name), Key: []byte(k), Value: bytes.Repeat([]byte("B"), 100<<10)})
+				r, err := p.leader.Put(ctx, &regattapb.PutRequest{Table: []byte(name), Key: []byte(k), Value: bytes.Repeat([]byte("B"), 300<<10)})
 				return r.GetHeader().GetRevision(), err
 			})
 		case evPoll:
